@@ -17,7 +17,7 @@ What is proved
   order is a valid declaration order is written in a valid order) is FALSE of the pinned code —
   `C04_order_counterexample` (a constant whose initial value inquires about a variable, as in LFRic's
   `constants_mod.f90`) — and `C04_order_partial` proves it under `GroupMonotone` (no declaration reads
-  a symbol that `gen_decls` puts in a later group; inside a group the table / argument order is valid
+  a symbol that `gen_decls` puts in a later group; inside a group the table order is valid
   and constant-to-constant dependencies are ones `_gen_parameter_decls` tracks).
 * scope merging: names stay distinct (so every written name denotes the object it was written for),
   objects keep identity and kind, only renamable symbols are renamed, new names never hide a host name.
@@ -39,7 +39,6 @@ instance (ds : List Sym) : Decidable (DepsOrdered ds) := by unfold DepsOrdered; 
 /-- requirement on two symbols of the same `gen_decls` group -/
 def withinOk (u : Decls.Unit) (s : Sym) (d : Name) : Prop :=
   if s.cls = .param then d ∈ s.ideps
-  else if s.cls = .arg then u.args.idxOf d < u.args.idxOf s.name
   else (names u.syms).idxOf d < (names u.syms).idxOf s.name
 
 instance (u : Decls.Unit) (s : Sym) (d : Name) : Decidable (withinOk u s d) := by unfold withinOk; infer_instance
@@ -124,7 +123,7 @@ import, or needs no declaration -/
 theorem C04_decls_cover_uses (u : Decls.Unit) (w : Wf u) (hc : ImportsClosed u) (items : List Item)
     (h : writeUnit u = .ok items) : ∀ s ∈ u.syms, Covered u items s := by
   obtain ⟨ds, hd, rfl⟩ := writeUnit_ok h
-  obtain ⟨_, _, _, _, _, hw, hb⟩ := genDecls_ok hd
+  obtain ⟨_, _, _, hw, hb, _⟩ := genDecls_ok hd
   have hperm := genDecls_perm w hd
   intro s hs
   have hdecl : s.cls.declarable = true → Item.decl (normVis u.isModule s) ∈
@@ -185,7 +184,7 @@ theorem C04_order_counterexample : ¬ C04_statement := by
 /-- Under `GroupMonotone` the written declarations are in a valid order. -/
 theorem C04_order_partial (u : Decls.Unit) (w : Wf u) (hg : GroupMonotone u) (ds : List Sym)
     (h : genDecls u = .ok ds) : DepsOrdered ds := by
-  obtain ⟨order, as, ho, ha, hds, _, _⟩ := genDecls_ok h
+  obtain ⟨order, ho, hds, _, _, _⟩ := genDecls_ok h
   have hperm := genDecls_perm w h
   intro s hs d hd hdn
   have hs' := List.mem_filter.mp (hperm.subset hs)
@@ -193,9 +192,9 @@ theorem C04_order_partial (u : Decls.Unit) (w : Wf u) (hg : GroupMonotone u) (ds
   have ht' := List.mem_filter.mp (hperm.subset ht)
   have hsd : s.cls.declarable = true := by simpa using hs'.2
   have htd : t.cls.declarable = true := by simpa using ht'.2
-  rw [hds, names_genDecls w ho ha]
-  obtain ⟨ps, ps2⟩ := pos_eq w ho ha hs'.1 hsd
-  obtain ⟨pt, pt2⟩ := pos_eq w ho ha ht'.1 htd
+  rw [hds, names_genDecls w ho]
+  obtain ⟨ps, ps2⟩ := pos_eq w ho hs'.1 hsd
+  obtain ⟨pt, pt2⟩ := pos_eq w ho ht'.1 htd
   rw [← htn, ps, pt]
   rcases hg s hs'.1 hsd d hd t ht'.1 htn htd with hlt | ⟨hc, hw⟩
   · have := offset_mono u order htd hsd hlt; omega
@@ -216,16 +215,12 @@ theorem C04_order_partial (u : Decls.Unit) (w : Wf u) (hg : GroupMonotone u) (ds
         simp only [List.contains_iff_mem]
         exact List.mem_map.mpr ⟨t, htP, rfl⟩
       exact (C04_orderParams_respects_deps _ (by rw [pkeys_paramGraph]; exact hnd) order ho _ _ _ hmem hin).2
-    · split at hw
-      · rename_i _ hp
-        rw [hp]; show u.args.idxOf t.name < u.args.idxOf s.name
-        rw [htn]; exact hw
-      · rename_i hnp hna
-        have hseg : seg u order s.cls = names (ofCls u.syms s.cls) := by
-          rcases declarable_cases hsd with h | h | h | h | h <;> simp_all [seg]
-        rw [hseg]
-        refine idxOf_filter_mono w.nodup _ ht'.1 hs'.1 (by simp [hc]) (by simp) ?_
-        rw [htn]; exact hw
+    · rename_i hnp
+      have hseg : seg u order s.cls = names (ofCls u.syms s.cls) := by
+        rcases declarable_cases hsd with h | h | h | h | h <;> simp_all [seg]
+      rw [hseg]
+      refine idxOf_filter_mono w.nodup _ ht'.1 hs'.1 (by simp [hc]) (by simp) ?_
+      rw [htn]; exact hw
 
 /-- After the inner scopes have been merged into the routine scope: all names are distinct, so every
 written name denotes (in the merged, single scope) the symbol object it was written for; every entry
@@ -251,7 +246,7 @@ def uOk : Decls.Unit :=
              { name := 7, cls := .arg }, { name := 6, cls := .arg, xdeps := [7, 1] },
              { name := 8, cls := .dtype, xdeps := [1] }, { name := 9, cls := .other, xdeps := [8] },
              { name := 4, cls := .iface }],
-    args := [7, 6] }
+    args := [6, 7] }
 
 example : Wf uOk := by decide
 example : GroupMonotone uOk := by decide
